@@ -173,6 +173,14 @@ def _save_and_reraise(ctx):
                               case=label)
                     rep.check('R9.1', '__exit__[no-log-on-reraise]',
                               not logs, '%s: nothing is logged' % label)
+                    chained = [e for e in o.effects if e[0] == 'cause']
+                    rep.check('R9.2', 'force_reraise[chaining]', not chained,
+                              '%s: the original is raised again by a '
+                              '"raise ... from %s", which rewrites its '
+                              '__cause__ / __suppress_context__ (a chained '
+                              'original loses its cause)' % (
+                                  label, show(chained[0][2]) if chained
+                                  else '-'), case=label)
                 else:
                     ok = o.kind == 'return' and isinstance(o.value, K) \
                         and not o.value.v
@@ -193,15 +201,27 @@ def _save_and_reraise(ctx):
                   'exception is invented)' % o.brief())
     # capture / __enter__
     for active in (True, False):
-        for meth, check in (('__enter__', None), ('capture', True),
-                            ('capture', False)):
-            label = '%s(check=%s) with%s active exception' % (
-                meth, check, '' if active else 'out')
+        for meth, check, prior in (
+                ('__enter__', None, False), ('capture', True, False),
+                ('capture', False, False), ('__enter__', None, True),
+                ('capture', False, True)):
+            label = '%s(check=%s) with%s active exception%s' % (
+                meth, check, '' if active else 'out',
+                ' on a context that captured an earlier one' if prior
+                else '')
             holder = {}
 
             def thunk(interp):
                 obj = interp.call(cls, [], {'logger': logger_obj()})
                 holder['obj'] = obj
+                if prior:
+                    # an earlier use of the same object
+                    earlier = exc_obj('earlier', 'KeyError')
+                    _fake_frame(interp, earlier)
+                    try:
+                        interp.call(interp.get_attr(obj, 'capture'), [])
+                    finally:
+                        interp.frames.pop()
                 act = exc_obj('active', 'ValueError')
                 holder['act'] = act
                 if active:
@@ -454,10 +474,27 @@ def _remove_path(ctx):
                         and o.value.label == 'body-error'
                     msg = 'the BaseException propagates as the same object'
                 elif remove_fails:
+                    # the original cannot be raised any more: it must at
+                    # least be reported (some logging call mentions it)
+                    def mentions(x):
+                        if isinstance(x, Obj):
+                            return x.label == 'body-error'
+                        if isinstance(x, T):
+                            return any(mentions(a) for a in x.args) or \
+                                (x.op == 'obj' and x.args[0] == 'body-error')
+                        if isinstance(x, (tuple, list)):
+                            return any(mentions(a) for a in x)
+                        return False
+                    logged = [e for e in o.effects if e[0] == 'call' and
+                              str(e[1]).rsplit('.', 1)[-1] in (
+                                  'error', 'exception', 'warning',
+                                  'critical', 'log') and mentions(e[2])]
                     ok = o.kind == 'raise' and isinstance(o.value, Obj) \
                         and o.value.label == 'remove-error' and \
-                        len(removes) == 1
-                    msg = 'the error of remove() propagates'
+                        len(removes) == 1 and bool(logged)
+                    msg = 'the error of remove() propagates and the ' \
+                          'original exception, which can no longer be ' \
+                          'raised, is logged'
                 else:
                     ok = o.kind == 'raise' and isinstance(o.value, Obj) \
                         and o.value.label == 'body-error' \
